@@ -36,7 +36,9 @@ RULE = ("Fresh-process differential: a pool of ~70 value factories (built-ins; s
         "list/dict/str/int/float/tuple, namedtuple; OrderedDict, defaultdict, MappingProxyType, "
         "UserDict/UserList/UserString, deque, range, bytes, bytearray, memoryview, array, set, "
         "frozenset, dict views, generator; user-defined Mapping, Sequence, both, neither-but-iterable; "
-        "PAIRS of distinct classes with the same __name__/__qualname__ in different categories; numpy "
+        "PAIRS of distinct classes with the same __name__/__qualname__ in different categories; values of "
+        "SHORT-LIVED classes created on the fly (a new class per use, garbage-collected after the "
+        "warm-up step: Mapping, Sequence, namedtuple, dict/str subclass, plain); numpy "
         "0-d/1-d/2-d arrays of int/float/complex/bool/object/str, numpy scalars incl. longdouble, "
         "float64 (a float subclass); Decimal, Fraction, complex). A case = (warm-up: sequence of pool "
         "values, probe value). The probe runs every module-level type resolver, every validator, "
@@ -141,6 +143,21 @@ ListNamedDict = type("list", (dict,), {"__qualname__": "list"})
 DictNamedList = type("dict", (list,), {"__qualname__": "dict"})
 NdarrayNamed = type("ndarray", (list,), {"__qualname__": "ndarray", "__module__": "numpy"})
 
+def _dyn(kind):
+    """A value of a class created right now (and collectable right after): short-lived classes."""
+    if kind == "map":
+        return type("Rec", (MyMap,), {})({"a": 1, "b": 2})
+    if kind == "seq":
+        return type("Rec", (MySeq,), {})([1, 2])
+    if kind == "nt":
+        return collections.namedtuple("Rec", "a b")(1, 2)
+    if kind == "dict":
+        return type("Rec", (dict,), {})(a=1)
+    if kind == "str":
+        return type("Rec", (str,), {})("s")
+    return type("Rec", (), {})()
+
+
 POOL = [
     ("dict", lambda: {"a": 1, "b": [1]}), ("dict_empty", dict), ("dict_intkey", lambda: {1: 2}),
     ("list", lambda: [1, "a", None]), ("list_empty", list), ("tuple", lambda: (1, 2)),
@@ -173,6 +190,8 @@ POOL = [
     ("np_float32", lambda: np.float32(1.5)), ("np_longdouble", lambda: np.longdouble(1.5)),
     ("np_complex128", lambda: np.complex128(1j)), ("np_bool", lambda: np.bool_(True)),
     ("np_str", lambda: np.str_("s")),
+    ("dyn_map", lambda: _dyn("map")), ("dyn_seq", lambda: _dyn("seq")), ("dyn_namedtuple", lambda: _dyn("nt")),
+    ("dyn_dict", lambda: _dyn("dict")), ("dyn_str", lambda: _dyn("str")), ("dyn_plain", lambda: _dyn("plain")),
     ("nested_list_with_np", lambda: [np.array([1, 2]), {"a": np.int64(1)}]),
     ("nested_dict_with_L", lambda: {"k": L([D(a=MySeq())])}),
 ]
@@ -344,8 +363,10 @@ def fresh_fp(idx):
 
 def warmed_fp(warm, idx):
     def work():
+        import gc
         for w in warm:
             probe(w)
+            gc.collect()   # short-lived classes of the warm-up die here
         return probe(idx)
     return forked(work)
 
